@@ -129,6 +129,21 @@ def tensordot_outer(a, b):
     return A.tensordot(as_arr(a), as_arr(b), 0)
 
 
+def _tolerance_test(name, args, kw):
+    """np.allclose / np.isclose of numerical data: undecided, both outcomes are explored.  With the default (or any loose) tolerances neither outcome says
+    anything about equality up to rounding, so no fact is attached to the branches; with tolerances at rounding level the True branch asserts an equality
+    this domain does not interpret -- that branch ends the analysis without a verdict instead of being explored as if nothing were known."""
+    from .interp import UnknownBool
+    rtol = args[0] if len(args) > 0 else kw.get('rtol', 1e-5)
+    atol = args[1] if len(args) > 1 else kw.get('atol', 1e-8)
+    b = UnknownBool(f'{name} of numerical data (tolerance test, rtol={rtol}, atol={atol})')
+    try:
+        b.tight = max(float(rtol), float(atol)) <= 1e-12
+    except (TypeError, ValueError):
+        b.tight = True
+    return b
+
+
 class FakeNumpy:
     add = _Ufunc('add', 'add')
     subtract = _Ufunc('subtract', 'sub')
@@ -221,7 +236,27 @@ class FakeNumpy:
         if isinstance(a, (int, float)):
             return a
         a = as_arr(a)
-        return Arr(a.shape, a.legs, 'real', None, {k: v for k, v in a.tags.items() if k in ('prov',)}, 'real')
+        r = Arr(a.shape, a.legs, 'real', None, {k: v for k, v in a.tags.items() if k in ('prov',)}, 'real', parents=(a,))
+        if a.dt == 'complex':
+            A.CTX.event('real-part', array=a, result=r)
+        return r
+
+    @staticmethod
+    def real_if_close(a, tol=100):
+        """real part if ALL imaginary parts are below tol machine epsilons in ABSOLUTE terms, else the array itself: data-dependent, both outcomes explored;
+        the discarding outcome is logged (whether it is harmless depends on the scale of the data, which the test does not look at)"""
+        if isinstance(a, (int, float)):
+            return a
+        a = as_arr(a)
+        if a.dt != 'complex':
+            return a
+        from .interp import UnknownBool
+        if A.CTX.interp.truth(UnknownBool('np.real_if_close: are all imaginary parts below the absolute tolerance?')):
+            r = Arr(a.shape, a.legs, 'real', None, {k: v for k, v in a.tags.items() if k in ('prov', 'orth', 'mx', 'mx_unf')}, 'real', parents=(a,))
+            A.CTX.event('abs-discard', array=a, detail='np.real_if_close drops the imaginary parts when they are below an absolute tolerance (100 machine epsilons by default), '
+                        'whatever the magnitude of the data: for a tensor of tiny norm the imaginary parts ARE the data')
+            return r
+        return a
 
     @staticmethod
     def abs(a):
@@ -414,13 +449,15 @@ class FakeNumpy:
             return all(bool(v) for v in x)
         if isinstance(x, bool):
             return x
-        raise UnknownTruth('np.all of a numerical array')
+        from .interp import UnknownBool
+        return UnknownBool('np.all of a numerical array')
 
     @staticmethod
     def any(x, **k):
         if isinstance(x, (list, tuple)):
             return any(bool(v) for v in x)
-        raise UnknownTruth('np.any of a numerical array')
+        from .interp import UnknownBool
+        return UnknownBool('np.any of a numerical array')
 
     @staticmethod
     def minimum(a, b):
@@ -489,14 +526,14 @@ class FakeNumpy:
 
     @staticmethod
     def allclose(a, b, *x, **k):
-        raise UnknownTruth('np.allclose of numerical data')
+        return _tolerance_test('np.allclose', x, k)
 
     @staticmethod
     def isclose(a, b, *x, **k):
         if isinstance(a, (int, float)) and isinstance(b, (int, float)):
             import numpy as _np
             return bool(_np.isclose(a, b, *x, **k))
-        raise UnknownTruth('np.isclose of numerical data')
+        return _tolerance_test('np.isclose', x, k)
 
     @staticmethod
     def isrealobj(x):
